@@ -13,8 +13,10 @@ import sys
 
 P, K = sys.argv[1], sys.argv[2]
 needs = sys.argv[3] if len(sys.argv) > 3 else ''
-src = '/tmp/wt/%s/out/%s' % (P, K)
-dst = '/verif/seeded/%s-%s' % (P, K)
+ROOT = os.environ.get('WT_ROOT', '/tmp/wt')
+TAG = os.environ.get('SEED_TAG', '')
+src = '%s/%s/out/%s' % (ROOT, P, K)
+dst = '/verif/seeded/%s%s-%s' % (TAG, P, K)
 os.makedirs(dst, exist_ok=True)
 
 
@@ -37,12 +39,13 @@ sh('git -C /repo checkout -q -- .')
 assert diff.strip()
 open(dst + '/patch.diff', 'w').write(diff)
 demo = open(src + '/demo.py').read()
-demo = demo.replace("'/tmp/wt/%s'" % P, "__import__('os').environ.get('BILLIARD_TREE', '/repo')")
-demo = demo.replace('"/tmp/wt/%s"' % P, "__import__('os').environ.get('BILLIARD_TREE', '/repo')")
+demo = demo.replace("'%s/%s'" % (ROOT, P), "__import__('os').environ.get('BILLIARD_TREE', '/repo')")
+demo = demo.replace('"%s/%s"' % (ROOT, P), "__import__('os').environ.get('BILLIARD_TREE', '/repo')")
 open(dst + '/demo.py', 'w').write(demo)
 if os.path.exists(src + '/notes.md'):
     open(dst + '/notes.md', 'w').write(open(src + '/notes.md').read())
-ver = open('/tmp/seedverify/%s_%s.txt' % (P, K)).read() if os.path.exists('/tmp/seedverify/%s_%s.txt' % (P, K)) else ''
+SV = os.environ.get('SV_DIR', '/tmp/seedverify')
+ver = open('%s/%s_%s.txt' % (SV, P, K)).read() if os.path.exists('%s/%s_%s.txt' % (SV, P, K)) else ''
 clean = re.search(r'== clean demo\n(.*)', ver)
 patched = re.search(r'== patched demo\n(.*)', ver)
 suite = re.search(r'== patched test suite\n(.*)', ver)
@@ -51,13 +54,13 @@ out = sh('/verif/tools/seedcheck.sh %s/patch.diff' % dst).stdout
 detected = sorted(set(re.findall(r'VIOLATED (R[0-9.]+) ([^\n]*?) at billiard', out)))
 by_prop = sorted(set(re.findall(r'^(C\d\d) rc=1', out, re.M)))
 meta = {
-    'seed': '%s-%s' % (P, K),
+    'seed': '%s%s-%s' % (TAG, P, K),
     'breaks_property': P,
     'origin': 'independent sub-agent given only the property text and a scratch worktree of /repo',
     'needs_to_manifest': needs,
     'patch_rebased_on_repo_head': rebased,
     'confirmed_by_me': {
-        'where': 'scratch worktree /tmp/wt/%s (removed afterwards)' % P,
+        'where': 'scratch worktree %s/%s (removed afterwards)' % (ROOT, P),
         'commands': ['tools/verify_seed.sh %s %s' % (P, K)],
         'demo_on_clean_tree': (clean.group(1).strip()[-200:] if clean else ''),
         'demo_on_patched_tree': (patched.group(1).strip()[-300:] if patched else ''),
@@ -65,8 +68,8 @@ meta = {
     },
     'reported_by_checks': by_prop,
     'reported_rules': ['%s %s' % d for d in detected][:12],
-    'how_to_rerun': 'git -C /repo apply /verif/seeded/%s-%s/patch.diff; /venv/bin/python /verif/check.py <prop>; '
-                    'git -C /repo checkout -- .   (demo: BILLIARD_TREE=<tree> /venv/bin/python demo.py)' % (P, K),
+    'how_to_rerun': 'git -C /repo apply /verif/seeded/%s%s-%s/patch.diff; /venv/bin/python /verif/check.py <prop>; '
+                    'git -C /repo checkout -- .   (demo: BILLIARD_TREE=<tree> /venv/bin/python demo.py)' % (TAG, P, K),
 }
 json.dump(meta, open(dst + '/meta.json', 'w'), indent=1)
 print(P, K, 'rebased' if rebased else 'clean-apply', 'detected by', by_prop, [d[0] for d in detected][:4])
